@@ -23,13 +23,21 @@ func (pt *WgCounter) Count() int {
 	return int(pt.count.Load())
 }
 
-func (pt *WgCounter) Done() {
-	if pt.count.Load() == 0 {
-		return
-	}
+// Done decrements the counter and reports whether this call brought it to
+// zero, so that exactly one caller observes the last decrement.
+func (pt *WgCounter) Done() bool {
+	for {
+		n := pt.count.Load()
 
-	pt.count.Add(^uint32(0))
-	pt.wg.Done()
+		if n == 0 {
+			return false
+		}
+
+		if pt.count.CompareAndSwap(n, n-1) {
+			pt.wg.Done()
+			return n == 1
+		}
+	}
 }
 
 func (pt *WgCounter) Wait() {
